@@ -9,8 +9,9 @@ One program per point of
   x step of one section          (none | `:1` | `:2` -> refused by validate)
   x callee body                  (two element-wise bodies; a whole-array / full-range body, gfortran only)
 The position kinds x index classes x section classes are enumerated completely for rank <= 2 (quick tier: the
-one-section patterns completely, the two-section pattern by a pair-covering subset), rank 3 by a rotating subset (quick)
-or completely (thorough); formal bounds, steps and bodies rotate over the enumeration with a seed-dependent offset.
+one-section patterns completely, the two-section pattern by a pair-covering subset; thorough: everything, twice with
+different formal bounds), rank 3 by a rotating subset (quick: three points per pattern of section positions; thorough:
+every sixth point of the complete enumeration); formal bounds, steps and bodies rotate over the enumeration with a seed-dependent offset.
 
 Every array element has a distinct initial value and the callee writes position-dependent values, so an index map
 that is off by anything changes the output.  The callee writes no variable the actual mentions (IndexStable holds):
@@ -142,7 +143,7 @@ def family(rng, thorough):
             sel.append((arr, kinds, classes))
     p3 = list(points("t3"))
     if thorough:
-        sel += [("t3", k, c) for k, c in p3[off % 3::3]]
+        sel += [("t3", k, c) for k, c in p3[off % 6::6]]
     else:
         # every pattern of section positions, rotating through the classes
         by = {}
@@ -153,9 +154,8 @@ def family(rng, thorough):
             for m in range(3):
                 sel.append(("t3", k, cs[(off * 7 + m * (len(cs) // 3) + m) % len(cs)]))
     out = []
-    reps = 3 if thorough else 1
     for n, (arr, kinds, classes) in enumerate(sel):
-        for rep in range(reps):
+        for rep in range(2 if (thorough and arr != "t3") else 1):
             x = n + off + rep * 2
             fcls = [FORMAL_CLASSES[(x + 2 * d + rep) % 5] for d in range(3)]
             step = STEPS[(x * 5 + rep) % 6]
